@@ -5,6 +5,7 @@ Core Lean only.
 -/
 import Micm.Model.History
 import Micm.Model.BackwardEuler
+import Micm.Lemmas.Forcing
 namespace Micm
 set_option linter.unusedSectionVars false
 
@@ -510,6 +511,131 @@ theorem beSolve_converged_finite (Y : Mat α) (sc : Scratch α) (fuel : Nat)
 end BE
 
 
+/-! ### forward propagation of a NaN through the forcing kernel -/
+
+section ForcingNaN
+variable {α : Type} [OfNat α 0] [Add α] [Sub α] [Mul α] [Div α] {o : Ops α}
+
+/-- a fold of read-modify-writes keeps a NaN slot NaN when the modification is NaN-preserving -/
+theorem foldl_rmw_nan_sticky {β : Type} (g : β → Nat) (val : α → β → α)
+    (hst : ∀ x b, o.isNaN x = true → o.isNaN (val x b) = true) (l : List β) (f : Array α) (i : Nat)
+    (h : o.isNaN (rd f i) = true) :
+    o.isNaN (rd (l.foldl (fun f b => wr f (g b) (val (rd f (g b)) b)) f) i) = true := by
+  induction l generalizing f with
+  | nil => exact h
+  | cons b l ih =>
+    simp only [List.foldl_cons]
+    apply ih
+    rw [rd_wr]
+    split
+    · rename_i hc
+      rw [hc.1]; exact hst _ _ h
+    · exact h
+
+/-- … and makes slot `i` NaN if some item targets `i` (in range) with a NaN-producing modification -/
+theorem foldl_rmw_nan_create {β : Type} (g : β → Nat) (val : α → β → α)
+    (hst : ∀ x b, o.isNaN x = true → o.isNaN (val x b) = true) (l : List β) (f : Array α) (i : Nat)
+    (hall : ∀ x b, b ∈ l → g b = i → o.isNaN (val x b) = true)
+    (hmem : ∃ b ∈ l, g b = i) (hi : i < f.size) :
+    o.isNaN (rd (l.foldl (fun f b => wr f (g b) (val (rd f (g b)) b)) f) i) = true := by
+  induction l generalizing f with
+  | nil => obtain ⟨b, hb, _⟩ := hmem; cases hb
+  | cons b l ih =>
+    simp only [List.foldl_cons]
+    by_cases hg : g b = i
+    · apply foldl_rmw_nan_sticky g val hst
+      rw [hg, rd_wr_same _ _ _ hi]
+      exact hall _ b (List.mem_cons_self ..) hg
+    · apply ih
+      · intro x b' hb' hg'; exact hall x b' (List.mem_cons_of_mem _ hb') hg'
+      · obtain ⟨b', hb', hg'⟩ := hmem
+        rcases List.mem_cons.1 hb' with rfl | hb'
+        · exact absurd hg' hg
+        · exact ⟨b', hb', hg'⟩
+      · simpa using hi
+
+/-- the rate `k · y[r₁] · y[r₂] ⋯` is NaN when `k` or one of the concentrations is -/
+theorem NaNLaws.rxnRate (hl : NaNLaws o) (y : Array α) (k : α) (rs : List Nat)
+    (h : o.isNaN k = true ∨ ∃ j ∈ rs, o.isNaN (rd y j) = true) : o.isNaN (rxnRate y k rs) = true := by
+  unfold Micm.rxnRate
+  induction rs generalizing k with
+  | nil =>
+    rcases h with h | ⟨j, hj, _⟩
+    · exact h
+    · cases hj
+  | cons r rs ih =>
+    simp only [List.foldl_cons]
+    apply ih
+    rcases h with h | ⟨j, hj, hn⟩
+    · exact Or.inl (hl.mul _ _ (Or.inl h))
+    · rcases List.mem_cons.1 hj with rfl | hj
+      · exact Or.inl (hl.mul _ _ (Or.inr hn))
+      · exact Or.inr ⟨j, hj, hn⟩
+
+/-- one reaction never repairs a NaN forcing entry -/
+theorem NaNLaws.rxnStep_sticky (hl : NaNLaws o) (y f : Array α) (k : α) (rx : RRxn α) (i : Nat)
+    (h : o.isNaN (rd f i) = true) : o.isNaN (rd (rxnStep y f k rx) i) = true := by
+  unfold Micm.rxnStep
+  simp only []
+  apply foldl_rmw_nan_sticky (fun p : Nat × α => p.1) (fun x p => x + p.2 * Micm.rxnRate y k rx.1)
+    (fun x b hx => hl.add _ _ (Or.inl hx))
+  exact foldl_rmw_nan_sticky (fun i : Nat => i) (fun x _ => x - Micm.rxnRate y k rx.1)
+    (fun x b hx => hl.sub _ _ (Or.inl hx)) _ _ _ h
+
+/-- a reaction with a NaN rate makes the forcing of each of its reactants and products NaN -/
+theorem NaNLaws.rxnStep_create (hl : NaNLaws o) (y f : Array α) (k : α) (rx : RRxn α) (i : Nat)
+    (hrate : o.isNaN (Micm.rxnRate y k rx.1) = true) (hi : i < f.size)
+    (hmem : i ∈ rx.1 ∨ ∃ p ∈ rx.2, p.1 = i) : o.isNaN (rd (rxnStep y f k rx) i) = true := by
+  unfold Micm.rxnStep
+  simp only []
+  rcases hmem with hm | hm
+  · apply foldl_rmw_nan_sticky (fun p : Nat × α => p.1) (fun x p => x + p.2 * Micm.rxnRate y k rx.1)
+      (fun x b hx => hl.add _ _ (Or.inl hx))
+    exact foldl_rmw_nan_create (fun i : Nat => i) (fun x _ => x - Micm.rxnRate y k rx.1)
+      (fun x b hx => hl.sub _ _ (Or.inl hx)) _ _ _ (fun x b _ _ => hl.sub _ _ (Or.inr hrate))
+      ⟨i, hm, rfl⟩ hi
+  · refine foldl_rmw_nan_create (fun p : Nat × α => p.1) (fun x p => x + p.2 * Micm.rxnRate y k rx.1)
+      (fun x b hx => hl.add _ _ (Or.inl hx)) _ _ _
+      (fun x b _ _ => hl.add _ _ (Or.inr (hl.mul _ _ (Or.inr hrate)))) hm ?_
+    rw [foldl_wr_size (fun i : Nat => i) (fun f i => rd f i - Micm.rxnRate y k rx.1)]
+    exact hi
+
+theorem NaNLaws.forcingSpec_sticky (hl : NaNLaws o) (y : Array α) (rxns : List (RRxn α)) (ks : List α)
+    (f : Array α) (i : Nat) (h : o.isNaN (rd f i) = true) :
+    o.isNaN (rd (forcingSpec y rxns ks f) i) = true := by
+  induction rxns generalizing ks f with
+  | nil => simpa using h
+  | cons rx rest ih =>
+    cases ks with
+    | nil => simpa using h
+    | cons k ks => rw [forcingSpec_cons]; exact ih _ _ (hl.rxnStep_sticky y f k rx i h)
+
+/-- **NaN in ⇒ NaN forcing.**  If the `n`-th reaction has a NaN rate constant or a NaN reactant
+    concentration, the forcing of every (in-range) reactant and product of that reaction is NaN. -/
+theorem NaNLaws.forcingSpec_nan (hl : NaNLaws o) (y : Array α) (rxns : List (RRxn α)) (ks : List α)
+    (f : Array α) (n : Nat) (rx : RRxn α) (k : α) (hrx : rxns[n]? = some rx) (hk : ks[n]? = some k)
+    (hnan : o.isNaN k = true ∨ ∃ j ∈ rx.1, o.isNaN (rd y j) = true)
+    (i : Nat) (hi : i < f.size) (hmem : i ∈ rx.1 ∨ ∃ p ∈ rx.2, p.1 = i) :
+    o.isNaN (rd (forcingSpec y rxns ks f) i) = true := by
+  induction rxns generalizing ks f n with
+  | nil => simp at hrx
+  | cons rx0 rest ih =>
+    cases ks with
+    | nil => simp at hk
+    | cons k0 ks =>
+      rw [forcingSpec_cons]
+      cases n with
+      | zero =>
+        simp only [List.getElem?_cons_zero, Option.some.injEq] at hrx hk
+        subst hrx; subst hk
+        exact hl.forcingSpec_sticky y rest ks _ i
+          (hl.rxnStep_create y f k0 rx0 i (hl.rxnRate y k0 rx0.1 hnan) hi hmem)
+      | succ n =>
+        simp only [List.getElem?_cons_succ] at hrx hk
+        exact ih ks _ n hrx hk (by rw [rxnStep_size]; exact hi)
+
+end ForcingNaN
+
 /-! ### a carrier with a NaN satisfying `NaNLaws`: `Option Rat`, `none` = NaN -/
 
 /-- rationals with one extra absorbing element (`none`) playing NaN -/
@@ -530,6 +656,7 @@ instance : Sub NaNRat := ⟨bin (· - ·)⟩
 instance : Mul NaNRat := ⟨bin (· * ·)⟩
 instance : Div NaNRat := ⟨bin (· / ·)⟩
 instance (n : Nat) : OfNat NaNRat n := ⟨some (n : Rat)⟩
+instance : DecidableEq NaNRat := inferInstanceAs (DecidableEq (Option Rat))
 /-- the NaN -/
 def nan : NaNRat := none
 /-- embedding of the rationals -/
@@ -550,24 +677,42 @@ def nanRatOps : Ops NaNRat where
   isFinite := Option.isSome
   ofNat := fun n => some (n : Rat)
 
+theorem NaNRat.bin_isNone (f : Rat → Rat → Rat) (a b : Option Rat)
+    (h : a.isNone = true ∨ b.isNone = true) : (NaNRat.bin f a b).isNone = true := by
+  cases a with
+  | none => rfl
+  | some x =>
+    cases b with
+    | none => rfl
+    | some y => rcases h with h | h <;> cases h
+
+theorem NaNRat.cmp_false (f : Rat → Rat → Bool) (a b : Option Rat)
+    (h : a.isNone = true ∨ b.isNone = true) : NaNRat.cmp f a b = false := by
+  cases a with
+  | none => rfl
+  | some x =>
+    cases b with
+    | none => rfl
+    | some y => rcases h with h | h <;> cases h
+
+theorem NaNRat.un_isNone (f : Rat → Rat) (a : Option Rat) (h : a.isNone = true) :
+    (NaNRat.un f a).isNone = true := by
+  cases a with
+  | none => rfl
+  | some x => cases h
+
 theorem nanRatOps_laws : NaNLaws nanRatOps where
-  add a b h := by
-    show Option.isNone (NaNRat.bin _ a b) = true
-    cases a <;> cases b <;> simp_all [NaNRat.bin, nanRatOps]
-  sub a b h := by
-    show Option.isNone (NaNRat.bin _ a b) = true
-    cases a <;> cases b <;> simp_all [NaNRat.bin, nanRatOps]
-  mul a b h := by
-    show Option.isNone (NaNRat.bin _ a b) = true
-    cases a <;> cases b <;> simp_all [NaNRat.bin, nanRatOps]
-  div a b h := by
-    show Option.isNone (NaNRat.bin _ a b) = true
-    cases a <;> cases b <;> simp_all [NaNRat.bin, nanRatOps]
-  cmp a b h := by
-    cases a <;> cases b <;> simp_all [NaNRat.cmp, nanRatOps]
-  abs a h := by cases a <;> simp_all [NaNRat.un, nanRatOps]
-  sqrt a h := by cases a <;> simp_all [NaNRat.un, nanRatOps]
-  notFinite a h := by cases a <;> simp_all [nanRatOps]
+  add a b h := NaNRat.bin_isNone _ a b h
+  sub a b h := NaNRat.bin_isNone _ a b h
+  mul a b h := NaNRat.bin_isNone _ a b h
+  div a b h := NaNRat.bin_isNone _ a b h
+  cmp a b h := ⟨NaNRat.cmp_false _ a b h, NaNRat.cmp_false _ a b h, NaNRat.cmp_false _ a b h⟩
+  abs a h := NaNRat.un_isNone _ a h
+  sqrt a h := NaNRat.un_isNone _ a h
+  notFinite a h := by
+    cases a with
+    | none => rfl
+    | some x => cases h
   ofNat n := rfl
 
 end Micm
